@@ -31,6 +31,30 @@ def explore(res, scale=1, seed=None):
     rows = C.read_transcript(out)
     model = C.run_eval("Hs", [r[0] for r in rows])
     rows = [[c, _canon(g, m), o] for (c, g, o), m in zip(rows, model)]
+    # Every case runs against the real clock (hellos that arrive 100 ms and more before or after a deadline): on a loaded
+    # machine a goroutine can be held up for longer than that.  The generator is a function of the seed, so the same
+    # cases are run again - twice at most - and a case is reported only when it fails or disagrees every time (what
+    # the library does wrong whenever the case is run reproduces; a late timer of the test bench does not)
+    for attempt in range(2):
+        bad = [i for i, (r, m) in enumerate(zip(rows, model)) if r[2].startswith("FAIL") or (r[1] != m and r[1] != "-")]
+        if not bad or len(bad) > 200:
+            break
+        out2 = os.path.join(wd, "c13_%d_again%d.tsv" % (seed, attempt))
+        rc2, log2, _stats2, _dt2 = C.run_harness(binp, "c13", seed, BUDGET[res.tier] * scale, res.tier, out2, timeout=1500)
+        if rc2 != 0 or not os.path.exists(out2):
+            break
+        rows2 = C.read_transcript(out2)
+        os.remove(out2)
+        if len(rows2) != len(rows):
+            break
+        for i in bad:
+            c2, g2, o2 = rows2[i]
+            if c2 != rows[i][0]:
+                continue
+            g2 = _canon(g2, model[i])
+            if not o2.startswith("FAIL") and (g2 == model[i] or g2 == "-"):
+                rows[i] = [c2, g2, o2]
+                res.distribution["cases_agreeing_only_when_run_again"] = res.distribution.get("cases_agreeing_only_when_run_again", 0) + 1
     # the whole observation is compared, also for failed handshakes (exception carried, bytes written, closed)
     C.compare_rows(res, rows, model, "correspondence(handshake)", loose_err=False)
     res.account(rows)
